@@ -632,7 +632,7 @@ def b_enumerate(ex, p, args, kw, node):
     seq = ex.as_list(args[0], p, node)
     if seq.concrete:
         return [(p, Lst(items=[Tup([Num(j), x]) for j, x in enumerate(seq.items)]))]
-    return [(p, Lst(n=seq.n, at=lambda i: Tup([Num(i), seq.at(i)])))]
+    return [(p, Lst(n=seq.n, at=lambda i: Tup([Num(i), seq.at(i)]), tag=("enumerate", seq)))]
 
 
 def b_zip(ex, p, args, kw, node):
